@@ -74,7 +74,7 @@ def programs(draw, tier):
     nfiles = draw(st.integers(1, 3))
     ops = []
     for _ in range(draw(st.integers(2, 12 if tier == "quick" else 24))):
-        kind = draw(st.sampled_from(["save", "save", "save_again", "load", "load", "autoload", "randomise", "reinit", "train", "reserved", "model_saver"]))
+        kind = draw(st.sampled_from(["save", "save", "save_again", "load", "load", "autoload", "randomise", "reinit", "train", "reserved", "model_saver", "drift_restore"]))
         op = {"op": kind, "m": draw(st.integers(0, len(models) - 1)), "f": draw(st.integers(0, nfiles - 1)), "md": draw(st.integers(0, len(metas) - 1)),
               "loc": draw(st.sampled_from(["str", "str", "path", "fileobj"]))}     # documented: "location: str or file"
         if kind == "reserved":
@@ -175,6 +175,18 @@ def check(case):
                 for net in state.networks:
                     for p in getattr(state, net).parameters():
                         p.data.copy_(torch.randn_like(p))
+            elif kind == "drift_restore":
+                # save, let every parameter drift by a relative 1e-9 (e.g. a tiny update), restore from the file: bit-identical again
+                fp = os.path.join(tmp, f"drift_{mi}.pt")
+                state.save(fp)
+                want_p = params_of(state)
+                for net in state.networks:
+                    for p_ in getattr(state, net).parameters():
+                        p_.data.mul_(1 + 1e-9).add_(1e-12)
+                state.load(fp)
+                require(same_params(want_p, params_of(state)), "load:not-bit-identical-after-tiny-drift",
+                        "load() did not restore the saved parameters bit for bit into a model whose parameters had drifted by ~1e-9")
+                labels.add("drift_restore")
             elif kind == "reinit":
                 state.reinitialize_parameters()      # creates NEW parameter objects (unlike the in-place 'randomise')
                 labels.add("reinit")
